@@ -1,99 +1,100 @@
 (* Props/C07.v — the DA-included (final) height is sound, monotone, durable and eventually reached.
    Statements only; every proof is [exact <lemma of Proofs/IncluderProofs.v>].
-   A history is any list over: a block is committed (IAppend), the header / data with a given hash is
-   accepted by (aggregator) or observed on (full node) the DA layer at a DA height (IMarkH / IMarkD — the
-   events block/submitter.go and block/retriever.go produce), the includer runs (IInclude), the process
-   dies after k effects of an includer run and is started again (ICrash k; k = 0 is a crash at any other
-   moment), clean shutdown and start (IRestart).  Any interleaving, any DA fault sequence (a fault is the
-   absence of a mark), any mix of empty (bd = 0) and non-empty blocks, blocks sharing a data commitment. *)
+   [run b h] is a node with genesis.InitialHeight = b+1 (any b >= 0) after history [h]; a history is any list
+   over: a block is committed (IAppend), the header / data with a given hash is accepted by (aggregator) or
+   observed on (full node) the DA layer at a DA height (IMarkH / IMarkD — the events block/submitter.go and
+   block/retriever.go produce), the includer runs (IInclude), the process dies after k effects of an includer
+   run and is started again (ICrash k; k = 0 is a crash at any other moment), effect k+1 of a run fails, the
+   loop returns its error, the node shuts down cleanly and is started again (IFault k), clean shutdown and
+   start (IRestart).  Any interleaving, any DA fault sequence (a fault is the absence of a mark), any mix of
+   empty (bd = 0) and non-empty blocks, blocks sharing a data commitment. *)
 From Coq Require Import NArith List Bool.
 From Verif Require Import Model.Includer Proofs.IncluderProofs.
 Import ListNotations.
 Open Scope N_scope.
 
-(* "Reported" = what GetDAIncludedHeight() returns at ANY instant: after a history ([rep (run h)]), or
-   [k] effects into an includer run at which the process dies or an effect fails ([seen_at_death h k] — the
+(* "Reported" = what GetDAIncludedHeight() returns at ANY instant: after a history ([rep (run b h)]), or
+   [k] effects into an includer run at which the process dies or an effect fails ([seen_at_death b h k] — the
    effects of one height are Put rhb/h, Put rhb/d, SetFinal, Put d, publish-in-memory, in this order).
    The reported height never decreases: over any continuation; from the start of a run to any instant inside
    it; and from the instant of death (ICrash k) / of the failing effect (IFault k) to anything reported after
    the restart, whatever follows. *)
-Theorem C07_monotone_full : forall (h h' : list item) (k : nat),
-  rep (run h) <= rep (run (h ++ h')) /\
-  rep (run h) <= seen_at_death h k /\
-  seen_at_death h k <= rep (run (h ++ ICrash k :: h')) /\
-  seen_at_death h k <= rep (run (h ++ IFault k :: h')).
+Theorem C07_monotone_full : forall (b : N) (h h' : list item) (k : nat),
+  rep (run b h) <= rep (run b (h ++ h')) /\
+  rep (run b h) <= seen_at_death b h k /\
+  seen_at_death b h k <= rep (run b (h ++ ICrash k :: h')) /\
+  seen_at_death b h k <= rep (run b (h ++ IFault k :: h')).
 Proof. exact monotone. Qed.
 Print Assumptions C07_monotone_full.
 
 (* a clean restart and a crash outside an includer run report exactly the height reported before; a restart
    after a death / a failing effect k effects into a run reports the last height observable before it, or
    that height + 1 (when the Put of "d" happened and the publication did not) *)
-Theorem C07_durable_full : forall (h : list item) (k : nat),
-  rep (run (h ++ [IRestart])) = rep (run h) /\
-  rep (run (h ++ [ICrash 0])) = rep (run h) /\
-  seen_at_death h k <= rep (run (h ++ [ICrash k])) <= seen_at_death h k + 1 /\
-  seen_at_death h k <= rep (run (h ++ [IFault k])) <= seen_at_death h k + 1.
+Theorem C07_durable_full : forall (b : N) (h : list item) (k : nat),
+  rep (run b (h ++ [IRestart])) = rep (run b h) /\
+  rep (run b (h ++ [ICrash 0])) = rep (run b h) /\
+  seen_at_death b h k <= rep (run b (h ++ [ICrash k])) <= seen_at_death b h k + 1 /\
+  seen_at_death b h k <= rep (run b (h ++ [IFault k])) <= seen_at_death b h k + 1.
 Proof. exact durable. Qed.
 Print Assumptions C07_durable_full.
 
-(* after any history: the reported height does not exceed the chain height; the values ever stored as the
-   height are exactly rep, rep-1, ..., 1 (newest first: it advances one height at a time, from 0); the
-   executor's SetFinal log (newest first) has top m = rep or rep+1, every older entry equal to or one below
-   its successor, oldest 1 (in order, no height skipped, a repeat only of an entry whose store did not
-   follow); every store of height n is preceded by SetFinal(n), every publication of n by the store of n; the
-   persisted height equals the reported one *)
-Theorem C07_safety_full : forall h : list item, let s := run h in
-  rep s <= sheight s /\
-  desc (dputs (tr s)) (rep s) /\
-  (exists m, (m = rep s \/ m = rep s + 1) /\ finsok (fins (tr s)) m) /\
+(* after any history, for every initial height b+1: InitialHeight-1 <= reported <= chain height; the values
+   ever stored under "d" are exactly rep, rep-1, ..., InitialHeight (newest first: one height at a time, from
+   InitialHeight-1); the executor's SetFinal log (newest first) has top m = rep or rep+1, every older entry
+   equal to or one below its successor, oldest InitialHeight (in order, no height skipped, a repeat only of an
+   entry whose store did not follow); every store of height n is preceded by SetFinal(n), every publication of
+   n by the store of n; the persisted height (InitialHeight-1 when nothing is stored) equals the reported one *)
+Theorem C07_safety_full : forall (b : N) (h : list item), let s := run b h in
+  b <= rep s <= sheight s /\
+  desc b (dputs (tr s)) (rep s) /\
+  (exists m, (m = rep s \/ m = rep s + 1) /\ finsok b (fins (tr s)) m) /\
   asked_before (tr s) /\ persisted_before (tr s) /\
-  kd (meta s) = rep s.
+  kd s = rep s.
 Proof. exact safety. Qed.
 Print Assumptions C07_safety_full.
 
 (* the same at every instant inside an includer run (death / failing effect after k effects): the reported
    height is the persisted one or one below it, never above *)
-Theorem C07_safety_at_death_full : forall (h : list item) (k : nat), let s := dying (run h) k in
-  (kd (meta s) = di s \/ kd (meta s) = di s + 1) /\
-  kd (meta s) <= sheight s /\
-  desc (dputs (tr s)) (kd (meta s)) /\
-  (exists m, (m = kd (meta s) \/ m = kd (meta s) + 1) /\ finsok (fins (tr s)) m) /\
+Theorem C07_safety_at_death_full : forall (b : N) (h : list item) (k : nat), let s := dying (run b h) k in
+  (kd s = di s \/ kd s = di s + 1) /\ b <= di s /\
+  kd s <= sheight s /\
+  desc b (dputs (tr s)) (kd s) /\
+  (exists m, (m = kd s \/ m = kd s + 1) /\ finsok b (fins (tr s)) m) /\
   asked_before (tr s) /\ persisted_before (tr s).
 Proof. exact safety_at_death. Qed.
 Print Assumptions C07_safety_at_death_full.
 
-(* every height n up to the reported one is a stored block whose header was accepted by / observed on the
-   DA layer at the DA height recorded under rhb/<n>/h, and whose data — unless the block is empty, in which
-   case rhb/<n>/d repeats the header's DA height — was accepted / observed at the one recorded under rhb/<n>/d *)
-Theorem C07_sound_full : forall (h : list item) (n : N), let s := run h in
-  1 <= n <= rep s ->
-  exists b hda dda,
-    block_at (chain s) n = Some b /\
+(* every height n from the initial height up to the reported one is a stored block whose header was accepted
+   by / observed on the DA layer at the DA height recorded under rhb/<n>/h, and whose data — unless the block
+   is empty, in which case rhb/<n>/d repeats the header's DA height — at the one recorded under rhb/<n>/d *)
+Theorem C07_sound_full : forall (b : N) (h : list item) (n : N), let s := run b h in
+  b < n <= rep s ->
+  exists x hda dda,
+    block_at s n = Some x /\
     meta_get (meta s) (KH n) = Some hda /\ meta_get (meta s) (KT n) = Some dda /\
-    In (IMarkH (bh b) hda) h /\
-    (if bempty b then dda = hda else In (IMarkD (bd b) dda) h).
+    In (IMarkH (bh x) hda) h /\
+    (if bempty x then dda = hda else In (IMarkD (bd x) dda) h).
 Proof. exact sound. Qed.
 Print Assumptions C07_sound_full.
 
-Theorem C07_sound_at_death_full : forall (h : list item) (k : nat) (n : N), let s := dying (run h) k in
-  1 <= n <= di s ->
-  exists b hda dda,
-    block_at (chain s) n = Some b /\
+Theorem C07_sound_at_death_full : forall (b : N) (h : list item) (k : nat) (n : N), let s := dying (run b h) k in
+  b < n <= di s ->
+  exists x hda dda,
+    block_at s n = Some x /\
     meta_get (meta s) (KH n) = Some hda /\ meta_get (meta s) (KT n) = Some dda /\
-    In (IMarkH (bh b) hda) h /\
-    (if bempty b then dda = hda else In (IMarkD (bd b) dda) h).
+    In (IMarkH (bh x) hda) h /\
+    (if bempty x then dda = hda else In (IMarkD (bd x) dda) h).
 Proof. exact sound_at_death. Qed.
 Print Assumptions C07_sound_at_death_full.
 
-(* liveness under the guard [blocks_marked_since_crash]: if the header and (unless empty) the data of every
-   block up to n were accepted / observed after the last crash (clean restarts in between are allowed),
-   one run of the includer reports at least n.
-   What is missing relative to the property: marks produced before a crash; initial height above 1 (the guard
-   is false when a height up to n is a hole). *)
-Theorem C07_eventually_partial : forall (h : list item) (n : N),
-  n <= sheight (run h) ->
-  blocks_marked_since_crash h n = true ->
-  n <= rep (run (h ++ [IInclude])).
+(* liveness, for every initial height b+1 >= 1, under the guard [blocks_marked_since_crash]: if the header and
+   (unless empty) the data of every block up to n were accepted / observed after the last crash (clean
+   restarts and failing effects in between are allowed), one run of the includer reports at least n.
+   What is missing relative to the property: marks produced before a crash. *)
+Theorem C07_eventually_partial : forall (b : N) (h : list item) (n : N),
+  n <= sheight (run b h) ->
+  blocks_marked_since_crash b h n = true ->
+  n <= rep (run b (h ++ [IInclude])).
 Proof. exact eventually_guarded. Qed.
 Print Assumptions C07_eventually_partial.
 
@@ -102,27 +103,17 @@ Print Assumptions C07_eventually_partial.
    restarts, blocks, data marks — ever reports n.  On an aggregator nothing produces such a new mark (the
    submitter's watermark is persisted, the blob is never submitted again): defect F9. *)
 Theorem C07_eventually_refuted :
-  exists (h : list item) (n : N),
-    n <= sheight (run h) /\ blocks_marked_ever h n = true /\
-    forall ext, forallb (fun i => negb (is_markh i)) ext = true -> rep (run (h ++ ext)) < n.
+  exists (b : N) (h : list item) (n : N),
+    n <= sheight (run b h) /\ blocks_marked_ever b h n = true /\
+    forall ext, forallb (fun i => negb (is_markh i)) ext = true -> rep (run b (h ++ ext)) < n.
 Proof. exact eventually_refuted. Qed.
 Print Assumptions C07_eventually_refuted.
 
 Theorem C07_eventually_unguarded_refuted :
-  ~ (forall (h : list item) (n : N), n <= sheight (run h) -> blocks_marked_ever h n = true ->
-       exists k, n <= rep (run (h ++ repeat IInclude k))).
+  ~ (forall (b : N) (h : list item) (n : N), n <= sheight (run b h) -> blocks_marked_ever b h n = true ->
+       exists k, n <= rep (run b (h ++ repeat IInclude k))).
 Proof. exact eventually_full_is_false. Qed.
 Print Assumptions C07_eventually_unguarded_refuted.
-
-(* second refutation: genesis.InitialHeight > 1.  Heights below it are holes of the block store; the includer
-   starts at height 1, GetBlockData(1) fails, the loop breaks: whatever happens afterwards — marks included —
-   the reported height stays 0, although every existing block up to n is on the DA layer. *)
-Theorem C07_eventually_initial_height_refuted :
-  exists (h : list item) (n : N),
-    n <= sheight (run h) /\ blocks_marked_ever h n = true /\
-    forall ext, rep (run (h ++ ext)) = 0 /\ rep (run (h ++ ext)) < n.
-Proof. exact initial_height_refuted. Qed.
-Print Assumptions C07_eventually_initial_height_refuted.
 
 (* ---- non-vacuity ---------------------------------------------------------------------------------- *)
 Definition b1 := {| bh := 1; bd := 0 |}.       (* empty block *)
@@ -135,29 +126,49 @@ Definition ex_history : list item :=
     IMarkH 2 12; IMarkD 7 12; IRestart; IAppend b3; IInclude; IMarkH 3 13; ICrash 0; IInclude ].
 
 Example ex_run :
-  let s := run ex_history in
+  let s := run 0 ex_history in
   (rep s, sheight s, rev (fins (tr s)), rev (dputs (tr s))) = (2, 3, [1; 2; 2], [1; 2]) /\
   meta_get (meta s) (KH 2) = Some 12 /\ meta_get (meta s) (KT 2) = Some 12 /\
   meta_get (meta s) (KH 1) = Some 10 /\ meta_get (meta s) (KT 1) = Some 10.
 Proof. vm_compute. repeat split; reflexivity. Qed.
 
-(* the guard of the liveness theorem is met by a history with a clean restart between mark and inclusion *)
+(* the same history on a chain whose initial height is 5: heights 5, 6, 7 *)
+Example ex_run_initial_height_5 :
+  let s := run 4 ex_history in
+  (rep s, sheight s, rev (fins (tr s)), rev (dputs (tr s))) = (6, 7, [5; 6; 6], [5; 6]) /\
+  meta_get (meta s) (KH 6) = Some 12 /\ meta_get (meta s) (KT 5) = Some 10 /\ block_at s 6 = Some b2.
+Proof. vm_compute. repeat split; reflexivity. Qed.
+
+(* the guard of the liveness theorem is met by a history with a clean restart between mark and inclusion,
+   for initial heights 1 and 3 *)
 Definition ex_live : list item := [ IAppend b1; IAppend b2; IMarkH 1 10; IMarkD 7 11; IRestart; IMarkH 2 12 ].
 Example ex_live_guard :
-  blocks_marked_since_crash ex_live 2 = true /\ 2 <= sheight (run ex_live) /\
-  rep (run ex_live) = 0 /\ rep (run (ex_live ++ [IInclude])) = 2.
+  blocks_marked_since_crash 0 ex_live 2 = true /\ 2 <= sheight (run 0 ex_live) /\
+  rep (run 0 ex_live) = 0 /\ rep (run 0 (ex_live ++ [IInclude])) = 2 /\
+  blocks_marked_since_crash 2 ex_live 4 = true /\ 4 <= sheight (run 2 ex_live) /\
+  rep (run 2 ex_live) = 2 /\ rep (run 2 (ex_live ++ [IInclude])) = 4.
 Proof. vm_compute. repeat split; try reflexivity; discriminate. Qed.
 
-(* ... and is not met by the history of the refutation, whose blobs are nevertheless on the DA layer *)
 (* a death between the Put of "d" := 1 and its publication: 0 was the last height anyone saw, 1 is reported
    after the restart; one effect earlier the restart reports 0 *)
 Example ex_death :
   let h := [IAppend b1; IMarkH 1 10] in
-  (seen_at_death h 4, rep (run (h ++ [ICrash 4])), seen_at_death h 3, rep (run (h ++ [ICrash 3])),
-   seen_at_death h 5, rep (run (h ++ [IFault 5]))) = (0, 1, 0, 0, 1, 1).
+  (seen_at_death 0 h 4, rep (run 0 (h ++ [ICrash 4])), seen_at_death 0 h 3, rep (run 0 (h ++ [ICrash 3])),
+   seen_at_death 0 h 5, rep (run 0 (h ++ [IFault 5]))) = (0, 1, 0, 0, 1, 1).
 Proof. vm_compute. reflexivity. Qed.
 
+(* ... and is not met by the history of the refutation, whose blobs are nevertheless on the DA layer *)
 Example ex_f9 :
-  blocks_marked_since_crash f9_history 1 = false /\ blocks_marked_ever f9_history 1 = true /\
-  rep (run (f9_history ++ [IInclude; IRestart; IInclude])) = 0.
+  blocks_marked_since_crash 0 f9_history 1 = false /\ blocks_marked_ever 0 f9_history 1 = true /\
+  rep (run 0 (f9_history ++ [IInclude; IRestart; IInclude])) = 0.
+Proof. vm_compute. repeat split; reflexivity. Qed.
+
+(* Before the fix "DA inclusion with an initial height above 1" NewManager started the count at 0 whatever the
+   initial height ([init_before_the_repair]): the includer asked for block 1, which does not exist below the
+   initial height, and never moved (former known finding initial-height-gt1-includer-stuck).  From [init] the
+   same history reaches the chain height. *)
+Example before_the_repair_includer_stuck :
+  let h := [IAppend b1; IAppend b2; IMarkH 1 10; IMarkH 2 10; IMarkD 7 11; IInclude; IInclude] in
+  rep (run_from (init_before_the_repair 2) h) = 0 /\ sheight (run_from (init_before_the_repair 2) h) = 4 /\
+  rep (run 2 h) = 4 /\ blocks_marked_ever 2 h 4 = true.
 Proof. vm_compute. repeat split; reflexivity. Qed.
